@@ -3,6 +3,7 @@ package main
 import (
 	"fmt"
 	"go/types"
+	"strings"
 
 	"golang.org/x/tools/go/ssa"
 )
@@ -290,6 +291,9 @@ type spawnRec struct {
 	fn   *ssa.Function
 	bind []Val
 	at   *State // state at the spawn
+	reach string
+	joined []string // reach conditions of the joins that waited for it
+	pos  string
 }
 
 // spawn registers a goroutine running closure value f (a MakeClosure): its preconditions are checked here.
@@ -320,7 +324,7 @@ func (fr *frame) spawnClosure(f Val, st *State, reach string, what string) {
 	} else {
 		ex.used["spawned closure without contract: "+callee.String()] = true
 	}
-	fr.spawned = append(fr.spawned, spawnRec{fn: callee, bind: f.F.Bind, at: st.clone()})
+	fr.spawned = append(fr.spawned, spawnRec{fn: callee, bind: f.F.Bind, at: st.clone(), reach: reach, pos: ex.posOf(callee.Pos())})
 }
 
 // join models Wait(): everything the spawned goroutines could have written is forgotten, variables that are
@@ -356,9 +360,27 @@ func (fr *frame) join(st *State, reach string) {
 	clock, _ := ex.ghostGet(st, "clock")
 	ex.havocAll(st, "join with spawned goroutines")
 	// ghost state written by the goroutines is forgotten as well (the clock only moves forward)
+	// framed ghost variables change only if a spawned closure declares them (closures without a contract: all of them)
+	declared := map[string]bool{}
+	anyUnknown := false
+	for _, sp := range fr.spawned {
+		c := ex.w.contracts[sp.fn]
+		if c == nil || !c.HasMod {
+			anyUnknown = true
+			continue
+		}
+		for _, m := range c.Modifies {
+			if strings.HasPrefix(m, "ghost ") {
+				declared["X|"+strings.TrimSpace(strings.TrimPrefix(m, "ghost "))] = true
+			}
+		}
+	}
 	for _, k := range sortedKeys(ex.keySort) {
 		srt := ex.keySort[k]
 		if len(k) > 2 && k[:2] == "X|" && k != "X|ctx.parent" && k != "X|ctx.cancels" {
+			if ghostFramed[k] && !anyUnknown && !declared[k] {
+				continue
+			}
 			st.H[k] = ex.freshConst("jg", srt)
 		}
 	}
@@ -407,7 +429,23 @@ func (fr *frame) join(st *State, reach string) {
 			ex.used["TRUSTED join: stable postcondition "+c.Name+"#"+cl.Label+" assumed after Wait"] = true
 		}
 	}
+	for _, sp := range fr.spawned {
+		sp.joined = append(sp.joined, reach)
+		fr.joinedRecs = append(fr.joinedRecs, sp)
+	}
 	fr.spawned = nil
+}
+
+// checkJoined: at a return of the spawning function every goroutine it started has been waited for (C10: no goroutine
+// started by the run outlives the call).
+func (fr *frame) checkJoined(reach string) {
+	ex := fr.ex
+	for _, sp := range fr.spawned {
+		ex.oblige(fr.label("goroutine.joined."+sanitize(sp.fn.Name())), "assert", []string{"C10"}, imp(reach, not(sp.reach)), sp.pos, "goroutine "+sp.fn.Name()+" is never waited for before this return")
+	}
+	for _, sp := range fr.joinedRecs {
+		ex.oblige(fr.label("goroutine.joined."+sanitize(sp.fn.Name())), "assert", []string{"C10"}, imp(and(reach, sp.reach), or(sp.joined...)), sp.pos, "goroutine "+sp.fn.Name()+" must be waited for on every path to a return")
+	}
 }
 
 func init() {
